@@ -157,6 +157,21 @@ def module_lang(obj):
     return parts[1] if len(parts) > 1 else None
 
 
+def foreign_node(obj, langname):
+    """None if obj is a formula OBJECT of the logic the way the library itself defines it - the
+    root's class is defined in the logic's module and every node is an instance of the logic's
+    Formula class - else a description of the offending node.  (Deliberately not 'every node's
+    class is defined in that module': a refactoring may share leaf classes between logics.)"""
+    base = lang(langname).Formula
+    if module_lang(obj) != langname:
+        return 'the root is a %s of %s' % (type(obj).__name__, type(obj).__module__)
+    for node in all_nodes(obj):
+        if not isinstance(node, base):
+            return 'node %s of %s is not an instance of %s.Formula' % (
+                type(node).__name__, type(node).__module__, langname)
+    return None
+
+
 def all_nodes(obj):
     out = [obj]
     for c in obj.subformulas():
